@@ -5,6 +5,7 @@ CONSTANTS
   Aborting = {3}
   NT = 3
   Registrar = 4
+  Collector = 0
   Mutant = "loadBeforeLock"
 INVARIANTS Inv_C02_Atomic Inv_C02_NoTrace Inv_C05_NoLost Inv_C05_RegKept Inv_C05_Serial Inv_C05_SeesEarlier Inv_C06_NotifyAfterStore Inv_C10_Independent
 PROPERTIES Prop_C05_Grow
